@@ -10,7 +10,7 @@ EXTENDS Integers, Sequences, TLC, Json
 CONSTANTS Transports, MaxConns
 
 Trees == {"empty", "dirsOnly", "zeroFile", "oneByte", "exactChunk", "chunkPlus1", "chunkMinus1",
-          "threeChunks", "mixedSmall", "manyFiles", "oddNames", "dotdotNames", "prefixSiblings", "deepNest"}
+          "threeChunks", "mixedSmall", "manyFiles", "oddNames", "dotdotNames", "prefixSiblings", "deepNest", "deviceNames"}
 Chunks == {7, 64, 4096, 65536}
 Streams == {1, 2, 3, 8}
 
